@@ -1,6 +1,7 @@
 import PartituraModel.Wire
 import PartituraModel.Model.Kern
 import PartituraModel.Model.Mei
+import PartituraModel.Model.KernWrite
 
 open Wire Model
 
@@ -79,6 +80,71 @@ def durEl : P Mei.DurEl := do
   let p ← opt nat
   pure ⟨v, d, t, p⟩
 
+
+/-! ### the writers -/
+
+open Model.KernWrite in
+def xnote : P XNote := do
+  let kind ← nat
+  let voice ← nat
+  let staff ← nat
+  let sym ← opt (do
+    let ty ← str
+    let dots ← nat
+    let tup ← opt (do let a ← nat; let b ← nat; pure (a, b))
+    pure (⟨ty, dots, tup⟩ : SymDur))
+  let step ← str
+  let alter ← opt int
+  let octave ← int
+  let tn ← bool
+  let tp ← bool
+  let dur ← nat
+  pure { kind := kind, voice := voice, staff := staff, sym := sym, step := step, alter := alter, octave := octave,
+         tieNext := tn, tiePrev := tp, dur := dur }
+
+open Model.KernWrite in
+def xel : P El := do
+  let t ← tok
+  if t = "N" then (do let n ← xnote; pure (El.note n))
+  else if t = "C" then (do let st ← nat; let sg ← str; let ln ← nat; pure (El.clef st sg ln))
+  else if t = "M" then (do let n ← int; pure (El.measure n))
+  else if t = "T" then (do let b ← nat; let u ← nat; pure (El.tsig b u))
+  else if t = "K" then (do let f ← int; pure (El.ksig f))
+  else if t = "O" then pure El.other
+  else P.fail
+
+open Model.KernWrite in
+def xpart : P XPart := do
+  let divs ← nat
+  let pts ← list (do let t ← nat; let els ← list xel; pure (t, els))
+  pure { divs := divs, points := pts }
+
+/-- the percent-encoding of `wire.s` (ASCII) -/
+def encChar (c : Char) : List Char :=
+  if c.isAlphanum || "_.#:+=<>!?@^&*;'\"|~`$".toList.contains c then [c]
+  else
+    let hex := "0123456789abcdef".toList
+    ['%', hex.getD (c.toNat / 16 % 16) '0', hex.getD (c.toNat % 16) '0']
+
+def encCell (cs : List Char) : String :=
+  if cs = [] then "%" else if cs = ['-'] then "%2d" else String.ofList (cs.flatMap encChar)
+
+def fmtRows (rows : List (List (List Char))) : String := fmtList (fmtList encCell) rows
+
+def fmtFact (f : KernWrite.Fact) : String :=
+  fmtTuple [fmtRat f.onset, fmtRat f.dur, kindStr f.kind, stepStr f.step, fmtInt f.alter, fmtInt f.octave, fmtNat f.staff]
+
+/-- are all the facts among the notes the document denotes? (multiset inclusion, by removing one match per fact) -/
+def removeFirst (f : KernWrite.Fact) : List KernWrite.Fact → Option (List KernWrite.Fact)
+  | [] => none
+  | g :: rest => if g = f then some rest else (removeFirst f rest).map (g :: ·)
+
+def missing : List KernWrite.Fact → List KernWrite.Fact → List KernWrite.Fact
+  | [], _ => []
+  | f :: fs, pool => match removeFirst f pool with
+    | some pool' => missing fs pool'
+    | none => f :: missing fs pool
+
 def orErr (o : Option String) : String := o.getD "err"
 
 def handle (ts : List String) : String :=
@@ -106,6 +172,26 @@ def handle (ts : List String) : String :=
         | none => some (fmtRat (Mei.meiValue x d t))
   | "ppq" :: rest =>
     orErr <| (run (do let e ← list durEl; let u ← list nat; pure (e, u)) rest).bind fun (els, us) => (Mei.inferPpq els us).map fmtRat
+  | "wkern" :: what :: rest =>
+    match run xpart rest with
+    | none => "bad-request"
+    | some p =>
+      match what with
+      | "rows" => orErr ((KernWrite.writeKern p).map fmtRows)
+      | "exportable" => fmtBool (KernWrite.Exportable p)
+      | "facts" => fmtList fmtFact (KernWrite.facts p)
+      | "missing" =>
+        -- the facts of the part that the denotation of the written document does not contain
+        orErr <| (KernWrite.writeKern p).bind fun rows => (Kern.denote rows).map fun parts =>
+          fmtList fmtFact (missing (KernWrite.facts p) ((parts.map fun q => q.notes.map KernWrite.factOfKernNote).flatten))
+      | _ => "bad-request"
+  | ["ktab", "wdurs"] =>
+    fmtList (fun (e : String × List Char) => fmtTuple [e.1, String.ofList e.2]) KernWrite.kernDursW
+  | ["ktab", "wacc"] =>
+    fmtList (fun (e : Int × List Char) => fmtTuple [fmtInt e.1, String.ofList e.2]) KernWrite.accToSign
+  | ["ktab", "wnotes"] =>
+    fmtList (fun (e : String × Char × Char) => fmtTuple [e.1, String.ofList [e.2.1], String.ofList [e.2.2]]) KernWrite.stepLetters
+  | ["ktab", "wkeys"] => String.ofList KernWrite.keyLetters
   | ["ktab", "notes"] =>
     fmtList (fun (e : Char × String × Int) => fmtTuple [String.ofList [e.1], e.2.1, fmtInt e.2.2]) Kern.kernNotes
   | ["ktab", "durs"] =>
